@@ -175,6 +175,19 @@ func constEvalRejects(fn *ssa.Function, pi int, k int64) (rejects bool, decided 
 }
 
 func checkC01(p *Program, r *Report) {
+	// round 6 (systematic): the Base58 / Base58Check layer this property's strings go through is C07's — its table,
+	// checksum, exactness and purity clauses are necessary here too (§2.11)
+	r.Borrow("C07", func(o *Ob) (string, bool) {
+		switch o.Rule {
+		case "C07.tables", "C07.checksum", "C07.exact", "C07.pure":
+			if strings.Contains(o.Func, "bech32") || strings.Contains(o.Construct, "bech32") {
+				return "", false
+			}
+			return "C01.base58", true
+		}
+		return "", false
+	})
+	r.Floor("C01.base58", 5)
 	prefixWindowRule(p, r, "C01.prefix")
 	r.Floor("C01.prefix", 2)
 	if n := sharedStateRule(p, r, NewEffects(p), "C01.shared", []string{"address.go", "hash160.go", "hash256.go", "base58/base58check.go", "base58/base58.go"}); n > 0 {
